@@ -295,7 +295,7 @@ impl Property for P {
     fn assumptions() -> Vec<String> {
         vec![
             "interleavings are controlled at the granularity of the three hook points; what happens between two points runs uninterrupted on one thread while the others are parked".into(),
-            "the specfile watcher takes part in about 6 % of the cases (each of its runs waits about a second for the debounced file event); only a seed-chosen handful of orderings is executed for those".into(),
+            "the specfile watcher takes part in about 6 % of the cases if the harness is built with its feature `watcher` (check.sh does that for C12; each of these runs waits about a second for the debounced file event); only a seed-chosen handful of orderings is executed for those".into(),
         ]
     }
     fn cases(tier: Tier) -> u64 {
@@ -324,7 +324,7 @@ impl Property for P {
             prop::collection::btree_map(Just("W1".to_string()), 0u8..6, 0..2),
             prop::bool::weighted(three).prop_flat_map(move |t| prop::collection::vec(op.clone(), if t { 3..4 } else { 2..3 })),
             any::<u64>(),
-            prop::option::weighted(if std::env::var("FLV_C12_WATCHER_ONLY").is_ok() { 0.99 } else { 0.06 }, mspec_strat()),
+            if cfg!(feature = "watcher") { prop::option::weighted(if std::env::var("FLV_C12_WATCHER_ONLY").is_ok() { 0.99 } else { 0.06 }, mspec_strat()).boxed() } else { Just(None).boxed() },
         )
             .prop_map(|(initial, pushed, writers, ops, sample_seed, watcher)| {
                 // with the watcher: at most two handle threads next to it
